@@ -63,6 +63,8 @@ PL_BODIES = [
     "write('q'); return;", "write('q'); break;", "write('q'); continue;", "write('q'); if (i == 0) { continue; } return;", "write('q'); if (i == 0) { continue; } break;",
     "write('q'); if (i == 1) { break; } return;", "write('q'); if (x == 1) { return; }", "write('q'); if (i == 0) { continue; } write('w');", "write('q'); x += 1;",
     "write('q'); if (i < 2) { continue; } return;", "write('q'); while (i < 2) { i += 1; continue; } return;",
+    # the visible return / break is never reached: the hidden continue is always taken
+    "write('q'); if (i < 5) { continue; } return;", "write('q'); if (x < 5) { break; } return;", "write('q'); if (i >= 0) { continue; } break;", "write('q'); if (x < 5) { continue; } return;",
 ]
 PL_INNER = ["", "!truth_is_defeat(x == 1);", "!truth_is_defeat(i == x);", "!is_defeat();", "!truth_is_defeat(i == 2);"]
 PL_AFTER = ["", "!truth_is_defeat(x == 2);", "!is_defeat();"]
